@@ -71,6 +71,9 @@ func c13Jobs(tier string) []Job {
 			"m = macro(u){quote(unquote(u) + 1)}\nn = macro(u, v){quote(unquote(u) * unquote(v))}",
 			"n(m(a), m(b - 1))", "((a) + 1) * ((b - 1) + 1)", "m,n"}},
 		Job{Prop: "C13", Pkg: "eval", Func: "VerifMacro", MaxDec: 800, Args: []string{
+			"m = macro(u){quote(unquote(u) + 1)}\nn = macro(u, v){quote(unquote(u) * unquote(v))}\no = macro(){quote(7)}\np = macro(u){quote(-unquote(u))}",
+			"n(m(a), p(b)) + o()", "((a) + 1) * (-(b)) + (7)", "m,n,o,p"}},
+		Job{Prop: "C13", Pkg: "eval", Func: "VerifMacro", MaxDec: 800, Args: []string{
 			"unless = macro(cond, yes, no){quote(if !(unquote(cond)) {unquote(yes)} else {unquote(no)})}",
 			`unless(a > b, println("not greater"), println("greater"))`, `if !(a > b) {(println("not greater"))} else {(println("greater"))}`, "unless"}},
 		Job{Prop: "C13", Pkg: "eval", Func: "VerifMacro", MaxDec: 800, Args: []string{
